@@ -189,9 +189,18 @@ class C13(Check):
                         model[(s["key"], co)] = arr
             pr = simproc.run_process(build, fs=fs)
             if pr.status != 0 or pr.handler_errors:
-                raise core.HarnessError(
-                    f"building the source failed: {pr.exc} "
-                    f"{pr.handler_errors}")
+                # the repository's own writers failed to build the source
+                # fault-free: not this harness's fault (the harness only
+                # calls write_chunk on valid data) -- a precondition failure
+                res.violate(
+                    "C13/precondition-op-fails",
+                    "writing the source dataset with the package's own "
+                    f"writers failed without any fault: {pr.exc} "
+                    f"{pr.handler_errors}",
+                    key=f"C13/precondition-op-fails/"
+                    f"{pr.exc or pr.handler_errors[0]}")
+                res.digest = log.digest()
+                return res
             if scn["src_kind"] == "http_sharded" and scn["legacy"]:
                 to_legacy(fs, SRC, {s["key"]: scn["sbits"][0]
                                     for s in scn["scales"]})
@@ -244,8 +253,12 @@ class C13(Check):
                             model2[(s_["key"], co)] = arr
                 pr0 = simproc.run_process(build2, fs=fs)
                 if pr0.status != 0:
-                    raise core.HarnessError("building source 2 failed: "
-                                            f"{pr0.exc}")
+                    res.violate("C13/precondition-op-fails",
+                                "writing the second source failed without "
+                                f"any fault: {pr0.exc}",
+                                key=f"C13/precondition-op-fails/{pr0.exc}")
+                    res.digest = log.digest()
+                    return res
 
                 def two_calls():
                     convert_chunks.convert_chunks(src_url, DST,
